@@ -393,7 +393,9 @@ pub fn run_encoders(_cases_path: &str, report_path: &str, opts: &[String]) {
     let sample: Vec<u8> = (0..40u8).collect();
     for (name, f) in [("lzw-tiff", StreamFilter::LZWDecode(params(2, 1, 8, 4, 0))), ("flate-tiff", StreamFilter::FlateDecode(params(2, 1, 8, 4, 1))),
                       ("lzw-png", StreamFilter::LZWDecode(params(12, 1, 8, 4, 0))), ("flate-png", StreamFilter::FlateDecode(params(12, 1, 8, 4, 1))),
-                      ("flate-png15", StreamFilter::FlateDecode(params(15, 2, 8, 5, 1))), ("flate-undefined-predictor", StreamFilter::FlateDecode(params(5, 1, 8, 4, 1)))] {
+                      ("flate-png15", StreamFilter::FlateDecode(params(15, 2, 8, 5, 1))), ("flate-undefined-predictor", StreamFilter::FlateDecode(params(5, 1, 8, 4, 1))),
+                      ("flate-negative-predictor", StreamFilter::FlateDecode(params(-1, 1, 8, 4, 1))), ("lzw-negative-predictor", StreamFilter::LZWDecode(params(-7, 1, 8, 4, 0))),
+                      ("flate-predictor-zero", StreamFilter::FlateDecode(params(0, 1, 8, 4, 1)))] {
         rep.execs += 1;
         match guarded(|| encode(&sample, &f)) {
             Outcome::Done(Ok(enc)) => {
